@@ -24,6 +24,12 @@ Streams
   to_folded     stock conv+BN models (sequential, branched, non-foldable variants):
                 convert_to_folded_model / model_quantize(enable_bn_folding=True): fold-site selection
                 and class substitution against the model; predictions against the property.
+                Fix round Q: a second family of DAG models whose fold sites feed ORDER-SENSITIVE
+                multi-input layers (Subtract, Concatenate of 2..4 inputs; the removed batch norm first /
+                second / both / several; with and without a shared conv; no batch norm at all); the
+                inbound layers of every layer of the returned models (public get_config) are judged IN
+                ORDER (clause to_folded_input_order) and compared with the ordered-DAG Lean model
+                (`OGraph`), which also has to agree with the expression model on the older templates.
   history       ONE layer object (inside one model object) used many times: get_folded_weights /
                 unfold_model / inference calls by several routes and on inputs of several shapes,
                 interleaved with parameter replacements that are not training steps (variable.assign,
@@ -1021,6 +1027,46 @@ def templates_stock(rng):
   out.append(("qconv-bn", (5, 5, 2), False, [qc, B("b1", "q1"), C("c2", "conv", "b1"), B("b2", "c2")]))
   # Conv2D(activation=relu) -> BN: selected by the code although act(BN(.)) != BN(act(.))
   out.append(("conv-act-bn", (5, 5, 2), False, [C("c1", "conv", "in", act="relu", cm=3), B("b1", "c1")]))
+  # ---- fix round Q: fold sites feeding ORDER-SENSITIVE multi-input layers (Subtract, Concatenate);
+  # the removed batch norm is the first / the second / both / one of several inputs, with and without
+  # a conv that is shared (read by its batch norm AND by the merge: not a site)
+  def M(name, kind, *inputs):
+    return {"name": name, "type": kind, "inputs": list(inputs)}
+  S = dict(same=True)
+  out.append(("sub-bn-first", (4, 4, 2), True, [C("ca", "conv", "in", **S), B("ba", "ca"), C("cb", "conv", "in", **S),
+                                                 M("sub", "sub", "ba", "cb")]))
+  out.append(("sub-bn-second", (4, 4, 2), True, [C("ca", "conv", "in", **S), C("cb", "conv", "in", **S), B("bb", "cb"),
+                                                  M("sub", "sub", "ca", "bb"), R("r", "sub")]))
+  out.append(("sub-bn-both", (4, 4, 2), True, [C("ca", "dw", "in", cm=1, **S), B("ba", "ca"),
+                                                C("cb", "dw", "in", cm=1, **S), B("bb", "cb"),
+                                                M("sub", "sub", "ba", "bb"), C("c3", "conv", "sub", cm=2), B("b3", "c3")]))
+  out.append(("cat-bn-first", (4, 4, 2), True, [C("ca", "conv", "in", cm=1, **S), B("ba", "ca"),
+                                                 C("cb", "conv", "in", cm=3, **S), M("cat", "concat", "ba", "cb"),
+                                                 C("c3", "conv", "cat", cm=2), B("b3", "c3")]))
+  out.append(("cat-bn-second", (4, 4, 2), True, [C("ca", "conv", "in", cm=1, **S), C("cb", "dw", "in", cm=1, **S),
+                                                  B("bb", "cb"), M("cat", "concat", "ca", "bb")]))
+  out.append(("cat4-mixed", (4, 4, 2), True, [C("ca", "conv", "in", cm=1, **S), B("ba", "ca"),
+                                               C("cb", "conv", "in", cm=2, **S),
+                                               C("cc", "dw", "in", cm=1, **S), B("bc", "cc"),
+                                               M("cat", "concat", "ba", "cb", "in", "bc"), R("r", "cat")]))
+  out.append(("sub-shared-conv", (4, 4, 2), True, [C("cs", "conv", "in", **S), B("bs", "cs"), M("sub", "sub", "bs", "cs"),
+                                                    C("ca", "conv", "in", **S), B("ba", "ca"),
+                                                    M("cat", "concat", "ba", "sub", "cs")]))
+  out.append(("sub-no-bn", (4, 4, 2), True, [C("ca", "conv", "in", **S), C("cb", "conv", "in", **S),
+                                              M("sub", "sub", "ca", "cb")]))
+  return out
+
+
+ORDER_FAMILY = ("sub-bn-first", "sub-bn-second", "sub-bn-both", "cat-bn-first", "cat-bn-second", "cat4-mixed",
+                "sub-shared-conv", "sub-no-bn")
+
+
+def inbound_names(model):
+  """name -> names of the inbound layers IN THE ORDER the layer is fed in THIS model (public config)"""
+  out = {}
+  for lc in model.get_config()["layers"]:
+    nodes = lc.get("inbound_nodes") or []
+    out[lc["name"]] = [e[0] for e in nodes[0]] if nodes else []
   return out
 
 
@@ -1073,6 +1119,13 @@ def build_keras(tf, qkeras, in_shape, spec, rng):
       y = lay(xs[0])
     elif t == "add":
       lay = L.Add(name=nd["name"])
+      y = lay(xs)
+    elif t == "sub":
+      lay = L.Subtract(name=nd["name"])
+      y = lay(xs)
+    elif t == "concat":
+      nd["chans"] = [int(v.shape[-1]) for v in xs]
+      lay = L.Concatenate(name=nd["name"])
       y = lay(xs)
     else:
       raise core.InfraError("bad spec type " + t)
@@ -1149,6 +1202,10 @@ def lean_graph_line(tf, model, spec, x, run, mode="ema_stats_folding", hasq=()):
       o.update({"kind": "other", "op": "relu"})
     elif t == "add":
       o.update({"kind": "other", "op": "add"})
+    elif t == "sub":
+      o.update({"kind": "other", "op": "sub"})
+    elif t == "concat":
+      o.update({"kind": "other", "op": "concat", "chans": [int(c) for c in nd["chans"]]})
     nodes.append(o)
   return {"op": "graph", "nodes": nodes, "rs": tab, "x": enc(x), "out": idx[spec[-1]["name"]],
           "mode": mode, "hasq": [idx[n] for n in hasq]}, names
@@ -1950,7 +2007,7 @@ def stream_to_folded(run, tf, qkeras, rng, tier):
                       mirrored=False)
           continue
         rec = {"tname": tname, "variant": variant, "spec": spec, "x": x, "y": y, "ltf": list(ltf),
-               "fm_layers": [l.name for l in fm.layers], "yfm": yfm}
+               "fm_layers": [l.name for l in fm.layers], "yfm": yfm, "fm_in": inbound_names(fm)}
         by = {nd["name"]: nd for nd in spec}
         convs = [nd["name"] for nd in spec if nd["type"] in ("conv", "dw")]
         if variant == "A":
@@ -1983,6 +2040,7 @@ def stream_to_folded(run, tf, qkeras, rng, tier):
                         mirrored=False)
             continue
           rec["q_classes"] = {l.name: l.__class__.__name__ for l in qm.layers}
+          rec["qm_in"] = inbound_names(qm)
           rec["src_classes"] = {l.name: l.__class__.__name__ for l in m.layers}
           rec["yq"] = qm.predict(x, verbose=0)
           fresh = True
@@ -2023,7 +2081,11 @@ def stream_to_folded(run, tf, qkeras, rng, tier):
             qm2.predict_function = None   # retrace with the transferred epsilon
             rec["yq2"] = qm2.predict(x, verbose=0)
         jobs.append(rec)
-  outs = core.run_driver("C15", [j["line"] for j in jobs])
+  # every job goes to the ORDERED-DAG model (`ograph`: n-ary nodes, ordered input lists); the templates
+  # whose merges are binary Adds also go to the expression model (`graph`) and the two must agree
+  legacy = [ji for ji, j in enumerate(jobs) if j["tname"] not in ORDER_FAMILY]
+  outs = core.run_driver("C15", [dict(j["line"], op="ograph") for j in jobs] + [jobs[ji]["line"] for ji in legacy])
+  legacy_out = {ji: outs[len(jobs) + n] for n, ji in enumerate(legacy)}
   for ji, (rec, o) in enumerate(zip(jobs, outs)):
     tname, variant, spec, names = rec["tname"], rec["variant"], rec["spec"], rec["names"]
     desc = spec_desc(tname, spec)
@@ -2033,6 +2095,37 @@ def stream_to_folded(run, tf, qkeras, rng, tier):
     sites = [names[i] for i in o["sites"]]
     kept = [names[i] for i in o["kept"]]
     run.count("to_folded:sites=%d" % len(sites))
+    if ji in legacy_out:
+      lo = legacy_out[ji]
+      run.compared += 1
+      for k in ("y0", "y_drop", "y_fold", "sites", "kept", "qclass"):
+        if lo[k] != o[k]:
+          run.disagree("to_folded:expression_vs_ordered_dag:" + k, desc, lo[k], o[k])
+    # ---- INPUT ORDER of every layer of the returned model(s)
+    by = {nd["name"]: nd for nd in spec}
+    removed = {nd["name"]: nd["inputs"][0] for nd in spec if nd["type"] == "bn" and nd["inputs"][0] in rec["ltf"]}
+    want_in = {nd["name"]: [removed.get(i, i) for i in nd["inputs"]] for nd in spec if nd["name"] not in removed}
+    multi = any(len(v) > 1 for v in want_in.values())
+    for api, got_in, model_ins in (("convert_to_folded_model", rec["fm_in"], o["ins_rewire"]),
+                                   ("model_quantize", rec.get("qm_in"), o["ins_convert"])):
+      if got_in is None:
+        continue
+      got = {n: got_in.get(n) for n in want_in}
+      mod = {names[i]: [names[p] for p in model_ins[i]] for i in o["kept"] if names[i] != "in"}
+      run.compared += 1
+      if got != mod:
+        run.disagree("to_folded:input_order:" + api, desc, got, mod)
+      if got == want_in:
+        run.count("clause:to_folded_input_order:%s:%s" % (api, "multi-input:holds" if multi else "single-input:holds"))
+      else:
+        bad = sorted(n for n in want_in if got.get(n) != want_in[n])
+        run.count("clause:to_folded_input_order:FAILS")
+        run.violate("to_folded_input_order", {"stream": "to_folded", "api": api, "template": tname},
+                    {"model": desc, "layers_to_fold": rec["ltf"], "layer": bad[0],
+                     "inputs_in_source_model": by[bad[0]]["inputs"], "expected_inputs": want_in[bad[0]],
+                     "inputs_in_returned_model": got.get(bad[0]),
+                     "note": "a removed BatchNormalization is replaced by the conv in front of it AT ITS POSITION"},
+                    mirrored=False)
     # ---- model tie: source predictions, fold-site selection, surviving layers, as-coded function
     run.compared += 4
     if fr(rec["y"]) != y0:
@@ -2122,6 +2215,13 @@ def run(run: core.Run, tier: str):
       "model, model but one layer, none}, the plan CHANGED and all variables replaced (layer.set_weights / model.set_weights / "
       "variable.assign) before the second unfolding; every variable of every layer of the unfolded model compared with the "
       "expectation, the source layer and the Lean layer-list model (unfoldLayers).  "
+      "to_folded stream (code with fix ff4bdc9): 8 stock templates (sequential, branched Add, shared conv, relu between, "
+      "bn first, residual depthwise, QConv2D, conv with activation) + 8 templates whose fold sites feed order-sensitive "
+      "merges (Subtract / Concatenate with the removed batch norm as first / second / both / two of four inputs, a conv "
+      "shared by its batch norm and the merge, no batch norm at all); convert_to_folded_model and "
+      "model_quantize(enable_bn_folding=True) x quantizer-config variants; layers_to_fold, surviving layers, classes, the "
+      "ORDERED inbound layers of every layer of both returned models, the as-coded function and the function after the "
+      "harness copied all parameters, against the ordered-DAG Lean model and the property.  "
       "history stream: one layer object in one model object, random and fixed sequences of {get_folded_weights, "
       "unfold_model, inference by 9 routes} and {assign per variable, set_weights layer/model route with same/other "
       "iteration, save->load_weights h5/tf, _iteration set, a real training step, quantizer attributes replaced}, every "
